@@ -3,7 +3,7 @@
 COMMON_ASSUME = [
     "executions run on the real implementation built from /repo's working tree with the sync/atomic imports of the go-data-transfer packages (and go-pubsub) rewritten to channel-based shims by a build-time overlay; no source hooks in /repo",
     "every execution runs inside a testing/synctest bubble (virtual clock, deterministic quiescence), GOMAXPROCS=1",
-    "go-statemachine, go-statestore, go-ds-versioning, ipld-prime run uninstrumented (their goroutine schedule between two quiescent points is the Go runtime's)",
+    "go-statestore, go-ds-versioning, ipld-prime run uninstrumented; go-statemachine and go-pubsub are vendored copies of the pinned versions (harness/third_party) whose only changes are: teardown escapes that fire after the harness called core.Abort (i.e. after an execution's verdict), recover() wrappers that report a panic of an event action / state entry function to the harness instead of killing the worker, and the sync shim import (go-pubsub); their goroutine schedule between two quiescent points is the Go runtime's",
 ]
 
 CHECKS = {}
